@@ -11,6 +11,7 @@ import (
 // ---------------------------------------------------------------------------
 
 type Profile struct {
+	Shadow  bool // one history in three also uses a second collection of the same database
 	Name    string
 	Weights map[string]int // op kind -> weight
 	Len     [2]int         // min,max number of ops after create
@@ -32,19 +33,20 @@ type Profile struct {
 }
 
 type Gen struct {
-	alt     *rand.Rand
-	r       *rand.Rand
-	p       *Profile
-	cons    []DCons
-	nextSid int
-	sids    []int
-	maxK    int
-	usedK   map[int]bool
-	async   bool
-	asyncMs int
-	ext     string
-	gz      bool
-	ops     []Op
+	lastCreate Op
+	alt        *rand.Rand
+	r          *rand.Rand
+	p          *Profile
+	cons       []DCons
+	nextSid    int
+	sids       []int
+	maxK       int
+	usedK      map[int]bool
+	async      bool
+	asyncMs    int
+	ext        string
+	gz         bool
+	ops        []Op
 }
 
 func hexs(s string) string { return hex.EncodeToString([]byte(s)) }
@@ -334,6 +336,9 @@ func (g *Gen) createOp() Op {
 // Search.Iterator+DeleteObjects, variadic / ToObjectSlice, channel / ToObjectChan) pick one from a
 // PRNG of their own, so that the main random stream — and every history built from it — is unchanged.
 func (g *Gen) add(op Op) {
+	if op.Op == "create" {
+		g.lastCreate = op
+	}
 	if g.alt == nil {
 		g.alt = rand.New(rand.NewSource(int64(len(g.ops))*7919 + 17))
 	}
@@ -349,7 +354,7 @@ func (g *Gen) add(op Op) {
 		} else {
 			op.Alt = g.alt.Intn(2)
 		}
-	case "sdel", "delall", "many", "bulk":
+	case "sdel", "delall", "many", "bulk", "aidx":
 		op.Alt = g.alt.Intn(2)
 	}
 	g.ops = append(g.ops, op)
@@ -414,7 +419,7 @@ func asyncHistory(p *Profile, seed int64) []Op {
 	g := &Gen{r: rand.New(rand.NewSource(seed)), alt: rand.New(rand.NewSource(seed ^ 0x5eed5eed)), p: p, usedK: map[int]bool{}}
 	r := g.r
 	g.cons = g.genCons()
-	g.add(Op{Op: "open"})
+	g.add(Op{Op: "open", Shadow: seed%2 == 1})
 	byTimeout := r.Intn(2) == 0
 	thr, ms := 2+r.Intn(3), 3600*1000
 	if byTimeout {
@@ -459,7 +464,26 @@ func asyncHistory(p *Profile, seed int64) []Op {
 				g.add(Op{Op: "del", K: 1 + r.Intn(6)}) // possibly while its write is pending
 			}
 		}
-		switch r.Intn(7) {
+		switch r.Intn(9) {
+		case 8:
+			// objects flushed without commit, then a flush-and-commit with nothing pending: the
+			// schema must be committed all the same
+			g.add(Op{Op: "flushall"})
+			g.add(Op{Op: "flushallc"})
+			g.add(Op{Op: "simg"})
+			observe()
+		case 7:
+			// the database is dropped and the collection created again on the same handle: the new
+			// collection needs a flusher of its own
+			g.add(Op{Op: "drop"})
+			g.add(Op{Op: "create", Cons: g.cons, Ext: ".json", Cache: r.Intn(2) == 0, AThr: thr, AMs: ms})
+			for i := 0; i < thr && i < 6; i++ {
+				sp := g.spec(1 + i)
+				g.usedK[1+i] = true
+				g.add(Op{Op: "ins", Spec: &sp})
+			}
+			quiesce()
+			observe()
 		case 6:
 			// asynchronous writes switched off and on again on the live handle: the flusher must be back
 			off := Op{Op: "create", Cons: g.cons, Ext: ".json", Cache: r.Intn(2) == 0}
@@ -614,7 +638,7 @@ func History(p *Profile, seed int64) []Op {
 	g := &Gen{r: rand.New(rand.NewSource(seed)), alt: rand.New(rand.NewSource(seed ^ 0x5eed5eed)), p: p, usedK: map[int]bool{}}
 	r := g.r
 	g.cons = g.genCons()
-	g.add(Op{Op: "open", Lower: r.Intn(100) < p.PLowerDir})
+	g.add(Op{Op: "open", Lower: r.Intn(100) < p.PLowerDir, Shadow: p.Shadow && seed%3 == 0})
 	first := g.createOp()
 	g.ext = first.Ext
 	g.gz = first.Gz
@@ -735,6 +759,65 @@ func History(p *Profile, seed int64) []Op {
 			g.add(Op{Op: "ls"})
 			g.add(Op{Op: "simg"})
 			g.add(Op{Op: "disk", K: g.pickK(10)})
+		case "recreatec":
+			// Create again on the live handle with a COMPATIBLE schema: same descriptors, extension
+			// and compression; cache and asynchronous-write settings kept or changed
+			op := g.lastCreate
+			if op.Op == "" {
+				op = g.createOp()
+				op.Ext, op.Gz = g.ext, g.gz
+			}
+			switch r.Intn(4) {
+			case 0:
+				op.Cache = !op.Cache
+			case 1:
+				if op.AThr > 0 {
+					op.AThr, op.AMs = 0, 0
+				} else {
+					op.AThr, op.AMs = 1000, 3600*1000
+					g.async = true
+				}
+			case 2:
+				if op.AThr > 0 {
+					op.AThr++ // another threshold, still never reached
+				}
+			}
+			g.add(op)
+		case "oidreuse":
+			// an object is stored, found by a search, deleted; something that could make the
+			// database forget which ids it has handed out happens; a new object is stored; the
+			// search is collected: it must not return the new object
+			k := g.p.MaxK + 8
+			sp := g.spec(k)
+			g.usedK[k] = true
+			g.add(Op{Op: "ins", Spec: &sp})
+			g.nextSid++
+			sid := g.nextSid
+			g.sids = append(g.sids, sid)
+			pr := Probe{T: "int64", I: sp.A}
+			g.add(Op{Op: "search", Sid: sid, Field: "A", Cmp: "=", Probe: &pr})
+			g.add(Op{Op: "del", K: k})
+			switch r.Intn(5) {
+			case 0:
+				op := g.lastCreate
+				if op.Op != "" {
+					op.Cache = !op.Cache
+					g.add(op)
+				}
+			case 1:
+				g.add(Op{Op: "close"})
+				g.add(Op{Op: "reopen"})
+				// (a search does not survive its handle: a new one is made after the restart)
+				g.add(Op{Op: "search", Sid: sid, Field: "A", Cmp: "=", Probe: &pr})
+			case 2:
+				g.add(Op{Op: "delall"})
+			case 3:
+				g.add(Op{Op: "flushallc"})
+			}
+			sp2 := g.spec(0)
+			g.add(Op{Op: "ins", Spec: &sp2})
+			g.add(Op{Op: "collect", Sid: sid})
+			g.add(Op{Op: "one", Sid: sid})
 		case "recreate":
 			op := g.createOp()
 			switch x := r.Intn(100); {
@@ -834,20 +917,20 @@ func History(p *Profile, seed int64) []Op {
 
 var profiles = map[string]*Profile{
 	// C01: CRUD refinement, every configuration
-	"crud": {Name: "crud", Len: [2]int{10, 40}, MaxK: 8, PIndex: 35, PUnique: 8, PUpper: 15, PLower: 15,
+	"crud": {Name: "crud", Shadow: true, Len: [2]int{10, 40}, MaxK: 8, PIndex: 35, PUnique: 8, PUpper: 15, PLower: 15,
 		PCache: 50, PAsync: 30, PGz: 30, PLowerDir: 30, PExt: 30, PBadInput: 6, SweepEvery: 6, NoHostile: true,
-		Weights: map[string]int{"ins": 30, "many": 6, "bulk": 4, "del": 10, "delall": 1, "get": 10, "exist": 4, "count": 2, "all": 3,
+		Weights: map[string]int{"ins": 30, "many": 6, "bulk": 4, "del": 10, "delall": 1, "get": 10, "exist": 4, "count": 2, "all": 3, "recreatec": 2,
 			"search": 4, "sdel": 3, "reopen": 4, "flush": 2}},
 	// C02: query trees over all fields and operators
 	"search": {Name: "search", Len: [2]int{15, 50}, MaxK: 14, PIndex: 50, PUnique: 3, PUpper: 10, PLower: 10,
 		PCache: 30, PAsync: 15, PGz: 10, PLowerDir: 10, PExt: 10, SweepEvery: 12, SearchSweep: true, NoHostile: true,
-		Weights: map[string]int{"ins": 30, "many": 4, "del": 8, "search": 20, "refine": 20, "collect": 20, "sdel": 3, "reopen": 3, "control": 3, "count": 1}},
+		Weights: map[string]int{"ins": 30, "many": 4, "del": 8, "search": 20, "refine": 20, "collect": 20, "sdel": 3, "reopen": 3, "control": 3, "count": 1, "recreatec": 2}},
 	// C03: uniqueness, tiny alphabets so that conflicts are frequent
 	"unique": {Name: "unique", Len: [2]int{15, 45}, MaxK: 7, PIndex: 15, PUnique: 30, PUpper: 20, PLower: 20,
 		PCache: 40, PAsync: 25, PGz: 10, PLowerDir: 10, PExt: 10, SweepEvery: 8, NoHostile: true,
 		Weights: map[string]int{"ins": 45, "many": 8, "bulk": 3, "del": 14, "sdel": 2, "search": 3, "reopen": 8, "get": 4, "control": 2}},
 	// C04: close / reopen at arbitrary positions, whole value domain
-	"reopen": {Name: "reopen", Len: [2]int{12, 40}, MaxK: 10, PIndex: 55, PUnique: 10, PUpper: 10, PLower: 10, Wide: true,
+	"reopen": {Name: "reopen", Shadow: true, Len: [2]int{12, 40}, MaxK: 10, PIndex: 55, PUnique: 10, PUpper: 10, PLower: 10, Wide: true,
 		PCache: 40, PAsync: 25, PGz: 25, PLowerDir: 20, PExt: 20, SweepEvery: 7, SearchSweep: true, NoHostile: true,
 		Weights: map[string]int{"ins": 35, "many": 5, "del": 8, "reopen": 18, "search": 8, "collect": 8, "aidx": 4, "control": 3, "ls": 2}},
 	// C06 / C15: rejected writes (hooks, uniqueness, unserialisable values), read back through every path
@@ -869,7 +952,7 @@ var profiles = map[string]*Profile{
 	// C13: order, reverse, limit, one, AssignIndex
 	"order": {Name: "order", Len: [2]int{15, 45}, MaxK: 16, PIndex: 70, PUnique: 2, PUpper: 10, PLower: 10,
 		PCache: 30, PAsync: 15, PGz: 5, PLowerDir: 5, PExt: 5, SweepEvery: 0, NoHostile: true,
-		Weights: map[string]int{"ins": 35, "many": 6, "del": 6, "search": 18, "refine": 10, "collect": 30, "aidx": 12, "reopen": 3}},
+		Weights: map[string]int{"ins": 35, "many": 6, "del": 6, "search": 18, "refine": 10, "collect": 30, "aidx": 12, "reopen": 3, "recreatec": 2}},
 	// C16: case canonicalisation
 	"case": {Name: "case", Len: [2]int{12, 40}, MaxK: 10, PIndex: 40, PUnique: 20, PUpper: 45, PLower: 45,
 		PCache: 30, PAsync: 15, PGz: 5, PLowerDir: 5, PExt: 5, SweepEvery: 8, SearchSweep: true, NoHostile: true,
@@ -882,9 +965,9 @@ var profiles = map[string]*Profile{
 	// C20: a search is a snapshot: writes between evaluation and collection
 	"snapshot": {Name: "snapshot", Len: [2]int{20, 60}, MaxK: 16, PIndex: 60, PUnique: 3, PUpper: 5, PLower: 5,
 		PCache: 40, PAsync: 20, PGz: 5, PLowerDir: 5, PExt: 5, SweepEvery: 0, NoHostile: true,
-		Weights: map[string]int{"ins": 40, "many": 6, "del": 14, "sdel": 3, "search": 14, "refine": 8, "collect": 22}},
+		Weights: map[string]int{"ins": 40, "many": 6, "del": 14, "sdel": 3, "search": 14, "refine": 8, "collect": 22, "recreatec": 3, "delall": 2, "oidreuse": 4}},
 	// C17: schema guard, re-creation, settings switches
-	"guard": {Name: "guard", Len: [2]int{10, 30}, MaxK: 8, PIndex: 35, PUnique: 10, PUpper: 15, PLower: 15,
+	"guard": {Name: "guard", Shadow: true, Len: [2]int{10, 30}, MaxK: 8, PIndex: 35, PUnique: 10, PUpper: 15, PLower: 15,
 		PCache: 50, PAsync: 50, PGz: 20, PLowerDir: 10, PExt: 30, SweepEvery: 5, NoHostile: true,
 		Weights: map[string]int{"ins": 35, "many": 5, "del": 8, "recreate": 16, "reshape": 8, "reopen": 8, "ls": 6, "get": 6}},
 	// C05: crash points. Synchronous mode and calls whose file operations come in a defined order.
